@@ -47,10 +47,11 @@ func ShouldPut(
 			return !has, nil // deduplicated by CID
 		}
 		if !blockstoreUseWholeCIDs {
-			_, err := idx.Get(c)
-			if err == nil {
-				return false, nil // deduplicated by hash
+			has, err := idx.HasMultihash(c.Hash())
+			if err != nil {
+				return false, err
 			}
+			return !has, nil // deduplicated by hash
 		}
 	}
 
